@@ -1,6 +1,6 @@
 (* C20 - closing or losing the link never strands a caller and is reported once. *)
 From Coq Require Import NArith List Bool.
-From ZB Require Import Api.Api Api.ApiProofs Api.ApiLive Api.ApiFifo gen.GenConsts.
+From ZB Require Import Api.Api Api.ApiProofs Api.ApiLive Api.ApiFifo Api.ApiReset gen.GenConsts.
 Import ListNotations.
 Open Scope N_scope.
 
@@ -84,3 +84,37 @@ Example C20_termination_instance :
   map (fun r => (r_id r, r_phase r)) (reqs (step (step (run_events ex_evs) EClose) (ETick 1000))) =
     [(1%nat, PDone OCancelled); (2%nat, PDone ORuntime); (3%nat, PDone ORuntime); (4%nat, PDone ORuntime)].
 Proof. exact close_terminates_nonvacuous. Qed.
+
+(* ---- "during a deliberate reset" as a statement about HISTORIES: the flag the theorems above read in the pre-state
+   is raised by the begin of a reset, lowered by its end, and touched by no other event *)
+Theorem C20_reset_flag_is_the_history : forall evs,
+  reset_in_progress (run_events evs) = fold_left reset_flag_step evs false.
+Proof. exact reset_flag_is_history. Qed.
+Print Assumptions C20_reset_flag_is_the_history.
+
+(* whatever happened before and whatever happens during the reset, a connection loss between the begin of a
+   deliberate reset and its end is NOT reported to the application *)
+Theorem C20_loss_during_reset_not_reported : forall before during, no_reset_end during ->
+  count_lost (log (run_events (before ++ EResetBegin :: during ++ [ELost]))) =
+  count_lost (log (run_events (before ++ EResetBegin :: during))).
+Proof. exact loss_during_reset_not_reported. Qed.
+Print Assumptions C20_loss_during_reset_not_reported.
+
+(* once the reset has ended, or if none was begun, a loss while the application is attached is reported exactly once *)
+Theorem C20_loss_after_reset_reported_once : forall before after, no_reset_begin after ->
+  app_attached (run_events (before ++ EResetEnd :: after)) = true ->
+  count_lost (log (run_events (before ++ EResetEnd :: after ++ [ELost]))) =
+  S (count_lost (log (run_events (before ++ EResetEnd :: after)))).
+Proof. exact loss_after_reset_reported_once. Qed.
+Print Assumptions C20_loss_after_reset_reported_once.
+Theorem C20_loss_without_reset_reported_once : forall evs, no_reset_begin evs -> app_attached (run_events evs) = true ->
+  count_lost (log (run_events (evs ++ [ELost]))) = S (count_lost (log (run_events evs))).
+Proof. exact loss_without_reset_reported_once. Qed.
+Print Assumptions C20_loss_without_reset_reported_once.
+
+(* non-vacuity: a request, a reset, a loss during it (not reported), the end of the reset, a second loss (reported) *)
+Example C20_reset_instance :
+  let h := [EIssue 1%nat 7 false 1%nat 5000; EResetBegin; EAck 0; ELost; EResetEnd; ELost] in
+  count_lost (log (run_events (firstn 4 h))) = 0%nat /\ count_lost (log (run_events h)) = 1%nat /\
+  app_attached (run_events (firstn 5 h)) = true.
+Proof. vm_compute. repeat split. Qed.
